@@ -289,6 +289,8 @@ def check_handlers(ix, rep, cls, hs):
         # polarity passed to the operands
         visits = [c for c in ast.walk(f.node) if isinstance(c, ast.Call) and D._self_call(c) == 'visit' and len(c.args) == 2 and isinstance(c.args[1], ast.List) and len(c.args[1].elts) == 2]
         for c in visits:
+            if nc.name in ('Rise', 'Fall', 'Neg', 'Implies', 'Previous', 'StrongPrevious', 'Next', 'StrongNext'):
+                break      # pointwise: polarity per (operand, offset) is derived from the operator summary in check_footprints
             child = ast.unparse(c.args[0])
             pol = ast.unparse(c.args[1].elts[1]).replace(' ', '')
             k = 0 if child.endswith('children[0]') else 1
@@ -300,6 +302,115 @@ def check_handlers(ix, rep, cls, hs):
             else:
                 rep.fail('R-POLARITY', where, sym, pslot, 'operand %d of %s is explained with %s polarity, it contributes with %s polarity: a satisfied antecedent/negated '
                          'operand is explained as if violated, so its samples are not reported' % (k, nc.name, 'the same' if pol == 'flag' else 'the opposite', 'the opposite' if flip else 'the same'), c.lineno)
+    return n
+
+
+def check_footprints(ix, rep, cls, hs, rule='R-EXPL-ALL'):
+    """a pointwise operator whose value at t reads its operand at offsets S (from the operator summary of the offline handler: prev {-1}, next {+1},
+    rise/fall {-1, 0}, everything else {0}) must ask its operand to explain every offset in S -- a sample the value depends on and that is not
+    reported can be re-assigned so that the violation disappears -- and with the polarity the summary gives that occurrence (the parity of the
+    negations above the leaf: rise = min(x[t], neg x[t-1]) needs x[t] with the same and x[t-1] with the opposite polarity)"""
+    from sa.props import c01, c02
+    mon = {m.kind: m for m in M.standard_monitors(ix)}['discrete-offline']
+    sums, _ = c01.opsum_offline_discrete(ix, c02._Quiet(rep), mon)
+    d = D.dispatch_of(ix, cls)
+    n = 0
+    for nc in D.node_classes(ix):
+        nf = sums.get(nc.name)
+        if nf is None or nf[0] != 'pointwise' or (isinstance(nf[1], tuple) and nf[1] and nf[1][0] == 'table'):
+            continue
+        if nc.name in ('Iff', 'Xor'):
+            continue      # not monotone in their operands: no polarity
+        need = {}
+
+        def leaves(e, neg):
+            if isinstance(e, tuple) and e:
+                if not isinstance(e[0], str):
+                    for a_ in e:
+                        if isinstance(a_, tuple):
+                            leaves(a_, neg)
+                    return
+                if e[0] == 'x':
+                    need.setdefault((e[1], e[2]), set()).add('notflag' if neg else 'flag')
+                    return
+                if e[0] == 'neg':
+                    leaves(e[1], not neg)
+                    return
+                if e[0] not in ('min', 'max'):
+                    # arithmetic: the explanation passes the intervals on unchanged, polarity is not meaningful
+                    for a_ in e[1:]:
+                        if isinstance(a_, tuple):
+                            leaves_any(a_)
+                    return
+                for a_ in (e[1:] if isinstance(e[0], str) else e):
+                    if isinstance(a_, tuple):
+                        leaves(a_, neg)
+
+        def leaves_any(e):
+            if isinstance(e, tuple) and e:
+                if e[0] == 'x':
+                    need.setdefault((e[1], e[2]), set()).add('any')
+                    return
+                for a_ in (e[1:] if isinstance(e[0], str) else e):
+                    if isinstance(a_, tuple):
+                        leaves_any(a_)
+        leaves(nf[1], False)
+        if all(k[1] == 0 for k in need) and nc.name not in ('Neg', 'Implies'):
+            continue
+        meth, _ = d.method_for(nc, ix)
+        cat, info, f = D.classify(ix, cls, meth) if meth else ('missing', None, None)
+        if cat != 'compute':
+            continue
+        n += 1
+        rep.analysed(f)
+        defs = {}
+        for st in ast.walk(f.node):
+            if isinstance(st, ast.Assign) and isinstance(st.value, ast.Call) and isinstance(st.value.func, ast.Name) and st.value.func.id.startswith('explain_'):
+                g = resolve_alias(hs, st.value.func.id[len('explain_'):])
+                gname = g.node.name if g is not None else st.value.func.id
+                tg = st.targets[0]
+                if isinstance(tg, ast.Name):
+                    defs[tg.id] = (gname, None)
+                elif isinstance(tg, ast.Tuple):
+                    for j, e_ in enumerate(tg.elts):
+                        if isinstance(e_, ast.Name):
+                            defs[e_.id] = (gname, j)
+        SHIFT = {'explain_unary': 0, 'explain_binary': 0, 'explain_prev': -1, 'explain_next': 1}
+        got = {}
+        other = set()
+        for c in ast.walk(f.node):
+            if isinstance(c, ast.Call) and D._self_call(c) == 'visit' and len(c.args) == 2 and isinstance(c.args[1], ast.List) and len(c.args[1].elts) == 2:
+                k = 0 if ast.unparse(c.args[0]).endswith('children[0]') else 1
+                iv = c.args[1].elts[0]
+                pol = ast.unparse(c.args[1].elts[1]).replace(' ', '')
+                sh = None
+                if isinstance(iv, ast.Name) and iv.id in defs and defs[iv.id][0] in SHIFT:
+                    sh = SHIFT[defs[iv.id][0]]
+                elif isinstance(iv, ast.Name) and iv.id == 'intervals':
+                    sh = 0
+                elif isinstance(iv, ast.Name) and iv.id in defs:
+                    # a polarity-specific helper (explain_sat_or ...): it selects among the requested samples, offset 0
+                    sh = 0
+                if sh is None:
+                    other.add(k)
+                else:
+                    got.setdefault((k, sh), set()).add(pol)
+        slot = 'explainer:%s:footprint' % nc.name
+        probs = []
+        for (k, sh), pols in sorted(need.items()):
+            have = got.get((k, sh))
+            if have is None:
+                probs.append('the value of %s at t depends on operand %d at offset %+d but the explanation never asks that operand about that offset (asked: %s): the sample is not '
+                             'reported and re-assigning it can remove the violation' % (nc.name, k, sh, sorted(o for (kk, o) in got if kk == k) or 'nothing'))
+            elif 'any' not in pols and not (pols & have):
+                probs.append('operand %d at offset %+d contributes with %s polarity but is explained with %s' % (
+                    k, sh, 'the opposite' if 'notflag' in pols else 'the same', 'the same' if 'flag' in have else 'the opposite'))
+        if probs:
+            for pr in probs:
+                polr = 'contributes with' in pr
+                rep.fail('R-POLARITY' if polr else rule, f.module.rel, f.qual, slot + (':polarity' if polr else ''), pr, f.node.lineno)
+        else:
+            rep.ok(rule, f.module.rel, f.qual, slot, 'asks about %s' % sorted('operand %d offset %+d (%s)' % (k, sh, '/'.join(sorted(p))) for (k, sh), p in need.items()), f.node.lineno)
     return n
 
 
@@ -406,6 +517,8 @@ def check(ix, rep):
     na = check_all_intervals(ix, rep, hs)
     rep.floor('helpers checked for honouring every interval', na, 20)
     check_accumulation(ix, rep, cls)
+    nfp = check_footprints(ix, rep, cls, hs)
+    rep.floor('shifting pointwise operators checked for their explanation footprint', nfp, 6)
     nu = check_union(ix, rep)
     rep.floor('interval_union definitions', nu, 2)
     explanation = (
